@@ -444,7 +444,7 @@ pub struct FullEntry {
     pub enc: Enc,
     pub buf: BufSel,
     /// for two-plane calls (update_color_frame, 7in5b_v2 update_frame): second plane filled with img2 / second half
-    pub plane2: Option<usize>,
+    pub plane2: Option<(usize, Enc)>,
     /// op must be preceded by this op (protocol): e.g. Chromatic after Achromatic, UpdateNew after UpdateOld
     pub after: Option<K>,
 }
@@ -487,6 +487,9 @@ pub struct Spec {
     pub busy_low: bool,
     pub busy_held_after_pof: bool,
     pub color: ColorKind,
+    /// colour type of the shipped Display alias (differs from the driver colour on 5in83b_v2)
+    pub alias_color: ColorKind,
+    pub display: fn() -> Box<dyn DynDisplay>,
     pub bwrbit: bool,
     /// planes of the Display alias (1 or 2) and bits per pixel per plane
     pub alias_planes: u32,
@@ -571,7 +574,10 @@ const fn fe_after(k: K, plane: usize, enc: Enc, buf: BufSel, after: K) -> FullEn
     FullEntry { k, plane, enc, buf, plane2: None, after: Some(after) }
 }
 const fn fe2(k: K, plane: usize, enc: Enc, buf: BufSel, plane2: usize) -> FullEntry {
-    FullEntry { k, plane, enc, buf, plane2: Some(plane2), after: None }
+    FullEntry { k, plane, enc, buf, plane2: Some((plane2, Enc::Id)), after: None }
+}
+const fn fe2e(k: K, plane: usize, enc: Enc, buf: BufSel, plane2: usize, enc2: Enc) -> FullEntry {
+    FullEntry { k, plane, enc, buf, plane2: Some((plane2, enc2)), after: None }
 }
 const fn pe(k: K, plane: usize, enc: Enc) -> PartialEntry {
     PartialEntry { k, plane, enc, after: None, two_planes: false, is_fill: false }
@@ -617,6 +623,8 @@ const SSD_DEF: Spec = Spec {
     busy_low: false,
     busy_held_after_pof: false,
     color: ColorKind::Bw,
+    alias_color: ColorKind::Bw,
+    display: disp::d1in54,
     bwrbit: false,
     alias_planes: 1,
     alias_bpp: 1,
@@ -646,6 +654,8 @@ const UC_DEF: Spec = Spec {
     busy_low: true,
     busy_held_after_pof: false,
     color: ColorKind::Bw,
+    alias_color: ColorKind::Bw,
+    display: disp::d4in2,
     bwrbit: false,
     alias_planes: 1,
     alias_bpp: 1,
@@ -668,7 +678,8 @@ pub static SPECS: &[Spec] = &[
         w: 80,
         h: 128,
         win_fmt: WinFmt::W5,
-        make: A1in02::make,
+make: A1in02::make,
+        display: disp::d1in02,
         full: &[
             fe(K::UpdateFrame, 1, Enc::Id, BufSel::Bw),
             fe(K::UpdateAndDisplay, 1, Enc::Id, BufSel::Bw),
@@ -686,7 +697,8 @@ pub static SPECS: &[Spec] = &[
         w: 200,
         h: 200,
         ram: (25, 200),
-        make: A1in54::make,
+make: A1in54::make,
+        display: disp::d1in54,
         partial: &[pe(K::UpdatePartial, 0, Enc::Id)],
         ops: ops!(SetLut, UpdatePartial),
         lut: LutKind::FullQuick,
@@ -698,7 +710,8 @@ pub static SPECS: &[Spec] = &[
         w: 200,
         h: 200,
         ram: (25, 200),
-        make: A1in54v2::make,
+make: A1in54v2::make,
+        display: disp::d1in54,
         partial: &[pe(K::UpdatePartial, 0, Enc::Id)],
         ops: ops!(SetLut, UpdatePartial),
         lut: LutKind::FullQuick,
@@ -710,7 +723,8 @@ pub static SPECS: &[Spec] = &[
         w: 200,
         h: 200,
         bpp1: 2,
-        make: A1in54b::make,
+make: A1in54b::make,
+        display: disp::d1in54b,
         full: &[
             fe(K::UpdateFrame, 0, Enc::X2, BufSel::Bw),
             fe(K::UpdateAndDisplay, 0, Enc::X2, BufSel::Bw),
@@ -727,7 +741,8 @@ pub static SPECS: &[Spec] = &[
         name: "epd1in54c",
         w: 152,
         h: 152,
-        make: A1in54c::make,
+make: A1in54c::make,
+        display: disp::d1in54c,
         full: &[
             fe(K::UpdateFrame, 0, Enc::Id, BufSel::Bw),
             fe(K::UpdateAndDisplay, 0, Enc::Id, BufSel::Bw),
@@ -744,7 +759,8 @@ pub static SPECS: &[Spec] = &[
         w: 122,
         h: 250,
         ram: (16, 250),
-        make: A2in13v2::make,
+make: A2in13v2::make,
+        display: disp::d2in13v2,
         full: &[fe(K::UpdateFrame, 0, Enc::Id, BufSel::Bw), fe(K::UpdateAndDisplay, 0, Enc::Id, BufSel::Bw), fe(K::SetPartialBase, 1, Enc::Id, BufSel::Bw)],
         partial: &[pe(K::UpdatePartial, 0, Enc::Id)],
         ops: ops!(SetLut, UpdatePartial, SetRefresh, SetPartialBase),
@@ -759,8 +775,10 @@ pub static SPECS: &[Spec] = &[
         h: 250,
         ram: (16, 250),
         color: ColorKind::Tri,
+        alias_color: ColorKind::Tri,
         alias_planes: 2,
-        make: A2in13bv4::make,
+make: A2in13bv4::make,
+        display: disp::d2in13bv4,
         full: TRI_SSD_FULL,
         ops: ops!(UpdateColor, Achromatic, Chromatic),
         essential: &[&[0x01, 0x11, 0x44, 0x45, 0x21]],
@@ -771,9 +789,11 @@ pub static SPECS: &[Spec] = &[
         w: 104,
         h: 212,
         color: ColorKind::Tri,
+        alias_color: ColorKind::Tri,
         bwrbit: true,
         alias_planes: 2,
-        make: A2in13bc::make,
+make: A2in13bc::make,
+        display: disp::d2in13bc,
         full: TRI_UC_FULL,
         ops: ops!(SetLut, UpdateColor, Achromatic, Chromatic, SetBorder),
         essential: &[&[0x06, 0x00, 0x61]],
@@ -785,8 +805,10 @@ pub static SPECS: &[Spec] = &[
         h: 296,
         ram: (20, 296),
         color: ColorKind::Tri,
+        alias_color: ColorKind::Tri,
         alias_planes: 2,
-        make: A2in66b::make,
+make: A2in66b::make,
+        display: disp::d2in66b,
         full: TRI_SSD_FULL,
         partial: &[pe(K::UpdatePartial, 0, Enc::Id)],
         ops: ops!(SetLut, UpdatePartial, UpdateColor, Achromatic, Chromatic),
@@ -798,7 +820,8 @@ pub static SPECS: &[Spec] = &[
         w: 176,
         h: 264,
         xywl: true,
-        make: A2in7::make,
+make: A2in7::make,
+        display: disp::d2in7,
         partial: &[pe(K::UpdatePartial, 0, Enc::Id)],
         ops: ops!(SetLut, UpdatePartial),
         lut: LutKind::Fixed,
@@ -810,7 +833,8 @@ pub static SPECS: &[Spec] = &[
         w: 176,
         h: 264,
         ram: (22, 264),
-        make: A2in7v2::make,
+make: A2in7v2::make,
+        display: disp::d2in7v2,
         partial: &[pe(K::UpdatePartial, 0, Enc::Id)],
         ops: ops!(SetLut, UpdatePartial),
         essential: &[&[0x11, 0x44, 0x45]],
@@ -821,11 +845,12 @@ pub static SPECS: &[Spec] = &[
         w: 176,
         h: 264,
         xywl: true,
-        make: A2in7b::make,
+make: A2in7b::make,
+        display: disp::d2in7b,
         full: &[
             fe(K::UpdateFrame, 0, Enc::Inv, BufSel::Bw),
             fe(K::UpdateAndDisplay, 0, Enc::Inv, BufSel::Bw),
-            fe2(K::UpdateColor, 0, Enc::Inv, BufSel::Bw, 1),
+            fe2e(K::UpdateColor, 0, Enc::Inv, BufSel::Bw, 1, Enc::Inv),
             fe(K::Achromatic, 0, Enc::Inv, BufSel::Bw),
             fe_after(K::Chromatic, 1, Enc::Inv, BufSel::Bw, K::Achromatic),
         ],
@@ -840,7 +865,8 @@ pub static SPECS: &[Spec] = &[
         w: 128,
         h: 296,
         ram: (16, 296),
-        make: A2in9::make,
+make: A2in9::make,
+        display: disp::d2in9,
         partial: &[pe(K::UpdatePartial, 0, Enc::Id)],
         ops: ops!(SetLut, UpdatePartial),
         lut: LutKind::FullQuick,
@@ -852,7 +878,8 @@ pub static SPECS: &[Spec] = &[
         w: 128,
         h: 296,
         ram: (16, 296),
-        make: A2in9v2::make,
+make: A2in9v2::make,
+        display: disp::d2in9v2,
         full: &[
             fe(K::UpdateFrame, 0, Enc::Id, BufSel::Bw),
             fe(K::UpdateAndDisplay, 0, Enc::Id, BufSel::Bw),
@@ -873,10 +900,12 @@ pub static SPECS: &[Spec] = &[
         h: 296,
         ram: (16, 296),
         color: ColorKind::Tri,
+        alias_color: ColorKind::Tri,
         bwrbit: true,
         alias_planes: 2,
         single_byte: false,
-        make: A2in9bv4::make,
+make: A2in9bv4::make,
+        display: disp::d2in9bv4,
         full: &[
             fe(K::UpdateFrame, 0, Enc::Id, BufSel::Bw),
             fe(K::UpdateAndDisplay, 0, Enc::Id, BufSel::Bw),
@@ -894,7 +923,8 @@ pub static SPECS: &[Spec] = &[
         name: "epd2in9bc",
         w: 128,
         h: 296,
-        make: A2in9bc::make,
+make: A2in9bc::make,
+        display: disp::d2in9bc,
         full: &[
             fe(K::UpdateFrame, 0, Enc::Id, BufSel::Bw),
             fe(K::UpdateAndDisplay, 0, Enc::Id, BufSel::Bw),
@@ -911,7 +941,8 @@ pub static SPECS: &[Spec] = &[
         w: 128,
         h: 296,
         win_fmt: WinFmt::W7,
-        make: A2in9d::make,
+make: A2in9d::make,
+        display: disp::d2in9d,
         partial: &[pe(K::UpdatePartial, 1, Enc::Id)],
         ops: ops!(SetLut, UpdatePartial),
         lut: LutKind::Fixed,
@@ -925,7 +956,8 @@ pub static SPECS: &[Spec] = &[
         h: 480,
         ram: (35, 480),
         x_pixel_units: true,
-        make: A3in7::make,
+make: A3in7::make,
+        display: disp::d3in7,
         ops: ops!(SetLut),
         lut: LutKind::FullQuick,
         essential: &[&[0x01, 0x11, 0x44, 0x45, 0x32]],
@@ -936,7 +968,8 @@ pub static SPECS: &[Spec] = &[
         w: 400,
         h: 300,
         win_fmt: WinFmt::W9,
-        make: A4in2::make,
+make: A4in2::make,
+        display: disp::d4in2,
         full: &[
             fe(K::UpdateFrame, 1, Enc::Id, BufSel::Bw),
             fe(K::UpdateAndDisplay, 1, Enc::Id, BufSel::Bw),
@@ -963,8 +996,10 @@ pub static SPECS: &[Spec] = &[
         bpp1: 4,
         busy_held_after_pof: true,
         color: ColorKind::Oct,
+        alias_color: ColorKind::Oct,
         alias_bpp: 4,
-        make: A5in65f::make,
+make: A5in65f::make,
+        display: disp::d5in65f,
         full: &[fe(K::UpdateFrame, 0, Enc::Id, BufSel::Whole), fe(K::UpdateAndDisplay, 0, Enc::Id, BufSel::Whole)],
         ops: BASE,
         essential: &[&[0x00, 0x01, 0x61]],
@@ -974,7 +1009,8 @@ pub static SPECS: &[Spec] = &[
         name: "epd5in83_v2",
         w: 648,
         h: 480,
-        make: A5in83v2::make,
+make: A5in83v2::make,
+        display: disp::d5in83v2,
         ops: BASE,
         essential: &[&[0x01, 0x00, 0x61]],
         ..UC_DEF
@@ -985,7 +1021,8 @@ pub static SPECS: &[Spec] = &[
         h: 480,
         win_fmt: WinFmt::W9,
         alias_planes: 2,
-        make: A5in83bv2::make,
+make: A5in83bv2::make,
+        display: disp::d5in83bv2,
         full: &[
             fe(K::UpdateFrame, 0, Enc::Id, BufSel::Bw),
             fe(K::UpdateAndDisplay, 0, Enc::Id, BufSel::Bw),
@@ -1006,8 +1043,10 @@ pub static SPECS: &[Spec] = &[
         bpp1: 4,
         busy_held_after_pof: false,
         color: ColorKind::Oct,
+        alias_color: ColorKind::Oct,
         alias_bpp: 4,
-        make: A7in3f::make,
+make: A7in3f::make,
+        display: disp::d7in3f,
         full: &[fe(K::UpdateFrame, 0, Enc::Id, BufSel::Whole), fe(K::UpdateAndDisplay, 0, Enc::Id, BufSel::Whole)],
         ops: ops!(Show7Block),
         essential: &[&[0xAA, 0x00, 0x01, 0x61]],
@@ -1019,7 +1058,8 @@ pub static SPECS: &[Spec] = &[
         h: 384,
         bpp1: 4,
         single_byte: false,
-        make: A7in5::make,
+make: A7in5::make,
+        display: disp::d7in5,
         full: &[fe(K::UpdateFrame, 0, Enc::X4, BufSel::Bw), fe(K::UpdateAndDisplay, 0, Enc::X4, BufSel::Bw)],
         ops: BASE,
         essential: &[&[0x01, 0x00, 0x06, 0x61]],
@@ -1032,7 +1072,8 @@ pub static SPECS: &[Spec] = &[
         ram: (110, 688),
         x_pixel_units: true,
         single_byte: false,
-        make: A7in5hd::make,
+make: A7in5hd::make,
+        display: disp::d7in5hd,
         ops: BASE,
         row_map: map_7in5hd,
         essential: &[&[0x01, 0x11, 0x44, 0x45]],
@@ -1043,7 +1084,8 @@ pub static SPECS: &[Spec] = &[
         w: 800,
         h: 480,
         single_byte: false,
-        make: A7in5v2::make,
+make: A7in5v2::make,
+        display: disp::d7in5v2,
         ops: BASE,
         essential: &[&[0x01, 0x00, 0x61]],
         ..UC_DEF
@@ -1054,9 +1096,11 @@ pub static SPECS: &[Spec] = &[
         h: 480,
         win_fmt: WinFmt::W9,
         color: ColorKind::Tri,
+        alias_color: ColorKind::Tri,
         alias_planes: 2,
         single_byte: false,
-        make: A7in5bv2::make,
+make: A7in5bv2::make,
+        display: disp::d7in5bv2,
         full: &[
             fe2(K::UpdateFrame, 0, Enc::Id, BufSel::Whole, 1),
             fe2(K::UpdateAndDisplay, 0, Enc::Id, BufSel::Whole, 1),
@@ -1080,4 +1124,123 @@ macro_rules! _quiet {
 
 pub fn spec_by_name(n: &str) -> Option<&'static Spec> {
     SPECS.iter().find(|s| s.name == n)
+}
+
+
+// =====================================================================================
+// Display aliases behind one object-safe trait
+// =====================================================================================
+use embedded_graphics_core::prelude::*;
+use epd_waveshare::graphics::DisplayRotation;
+
+pub fn rotation(i: u32) -> DisplayRotation {
+    match i & 3 {
+        0 => DisplayRotation::Rotate0,
+        1 => DisplayRotation::Rotate90,
+        2 => DisplayRotation::Rotate180,
+        _ => DisplayRotation::Rotate270,
+    }
+}
+
+pub trait DynDisplay {
+    fn set_rotation(&mut self, r: u32);
+    fn set_pixel(&mut self, x: i32, y: i32, color: u32);
+    fn fill(&mut self, color: u32);
+    fn buffer(&self) -> &[u8];
+    fn bw(&self) -> &[u8];
+    fn chr(&self) -> &[u8];
+    fn size(&self) -> (u32, u32);
+}
+
+macro_rules! dyn_display {
+    ($fname:ident, $ty:ty, $col:path, mono) => {
+        pub fn $fname() -> Box<dyn DynDisplay> {
+            struct D(Box<$ty>);
+            impl DynDisplay for D {
+                fn set_rotation(&mut self, r: u32) {
+                    self.0.set_rotation(rotation(r));
+                }
+                fn set_pixel(&mut self, x: i32, y: i32, color: u32) {
+                    self.0.set_pixel(Pixel(Point::new(x, y), $col(color)));
+                }
+                fn fill(&mut self, color: u32) {
+                    let _ = DrawTarget::clear(&mut *self.0, $col(color));
+                }
+                fn buffer(&self) -> &[u8] {
+                    self.0.buffer()
+                }
+                fn bw(&self) -> &[u8] {
+                    self.0.buffer()
+                }
+                fn chr(&self) -> &[u8] {
+                    &[]
+                }
+                fn size(&self) -> (u32, u32) {
+                    let s = OriginDimensions::size(&*self.0);
+                    (s.width, s.height)
+                }
+            }
+            Box::new(D(Box::new(<$ty>::default())))
+        }
+    };
+    ($fname:ident, $ty:ty, $col:path, tri) => {
+        pub fn $fname() -> Box<dyn DynDisplay> {
+            struct D(Box<$ty>);
+            impl DynDisplay for D {
+                fn set_rotation(&mut self, r: u32) {
+                    self.0.set_rotation(rotation(r));
+                }
+                fn set_pixel(&mut self, x: i32, y: i32, color: u32) {
+                    self.0.set_pixel(Pixel(Point::new(x, y), $col(color)));
+                }
+                fn fill(&mut self, color: u32) {
+                    let _ = DrawTarget::clear(&mut *self.0, $col(color));
+                }
+                fn buffer(&self) -> &[u8] {
+                    self.0.buffer()
+                }
+                fn bw(&self) -> &[u8] {
+                    self.0.bw_buffer()
+                }
+                fn chr(&self) -> &[u8] {
+                    self.0.chromatic_buffer()
+                }
+                fn size(&self) -> (u32, u32) {
+                    let s = OriginDimensions::size(&*self.0);
+                    (s.width, s.height)
+                }
+            }
+            Box::new(D(Box::new(<$ty>::default())))
+        }
+    };
+}
+
+pub mod disp {
+    use super::*;
+    dyn_display!(d1in02, ew::epd1in02::Display1in02, bw, mono);
+    dyn_display!(d1in54, ew::epd1in54::Display1in54, bw, mono);
+    dyn_display!(d1in54b, ew::epd1in54b::Display1in54b, bw, mono);
+    dyn_display!(d1in54c, ew::epd1in54c::Display1in54c, bw, mono);
+    dyn_display!(d2in13v2, ew::epd2in13_v2::Display2in13, bw, mono);
+    dyn_display!(d2in13bv4, ew::epd2in13b_v4::Display2in13b, tri, tri);
+    dyn_display!(d2in13bc, ew::epd2in13bc::Display2in13bc, tri, tri);
+    dyn_display!(d2in66b, ew::epd2in66b::Display2in66b, tri, tri);
+    dyn_display!(d2in7, ew::epd2in7::Display2in7, bw, mono);
+    dyn_display!(d2in7v2, ew::epd2in7_v2::Display2in7, bw, mono);
+    dyn_display!(d2in7b, ew::epd2in7b::Display2in7b, bw, mono);
+    dyn_display!(d2in9, ew::epd2in9::Display2in9, bw, mono);
+    dyn_display!(d2in9v2, ew::epd2in9_v2::Display2in9, bw, mono);
+    dyn_display!(d2in9bv4, ew::epd2in9b_v4::Display2in9b, tri, tri);
+    dyn_display!(d2in9bc, ew::epd2in9bc::Display2in9bc, bw, mono);
+    dyn_display!(d2in9d, ew::epd2in9d::Display2in9d, bw, mono);
+    dyn_display!(d3in7, ew::epd3in7::Display3in7, bw, mono);
+    dyn_display!(d4in2, ew::epd4in2::Display4in2, bw, mono);
+    dyn_display!(d5in65f, ew::epd5in65f::Display5in65f, oct, mono);
+    dyn_display!(d5in83v2, ew::epd5in83_v2::Display5in83, bw, mono);
+    dyn_display!(d5in83bv2, ew::epd5in83b_v2::Display5in83, tri, tri);
+    dyn_display!(d7in3f, ew::epd7in3f::Display7in3f, oct, mono);
+    dyn_display!(d7in5, ew::epd7in5::Display7in5, bw, mono);
+    dyn_display!(d7in5hd, ew::epd7in5_hd::Display7in5, bw, mono);
+    dyn_display!(d7in5v2, ew::epd7in5_v2::Display7in5, bw, mono);
+    dyn_display!(d7in5bv2, ew::epd7in5b_v2::Display7in5, tri, tri);
 }
